@@ -8,6 +8,7 @@ import Ark.Props.C01Refine
 import Ark.Props.C04Hist
 import Ark.Props.C01Rel
 import Ark.Props.C01Xchg
+import Ark.Props.C01Batch
 
 namespace Ark.Props.C01
 open Ark Ark.World
@@ -268,6 +269,61 @@ theorem xchg_xchg_others : type_of% @Ark.Props.C01Xchg.xchg_others := @Ark.Props
 
 /-- what an xchg step does to the entity's entry -/
 theorem xchg_xchg_effect : type_of% @Ark.Props.C01Xchg.xchg_effect := @Ark.Props.C01Xchg.xchg_effect
+
+
+
+/-! ### The batch forms as steps of the refinement machine (Props/C01Batch) -/
+
+/-- the invariant after every history of single AND batch operations (newb / delb / xchgb, observer-free, within the size budget `Fits`) -/
+theorem batch_reach_inv : type_of% @Ark.Props.C01Batch.reach_inv := @Ark.Props.C01Batch.reach_inv
+
+/-- a history of single operations is the same history of the machine below -/
+theorem batch_base_histories : type_of% @Ark.Props.C01Batch.base_histories := @Ark.Props.C01Batch.base_histories
+
+/-- **C01 with the batch forms**: after every history of single and batch operations every specified entity is alive with exactly the specified components and the last written values — the specification step of a batch being the single operation applied to every specified entity whose component set the filter matches -/
+theorem batch_refines : type_of% @Ark.Props.C01Batch.refines := @Ark.Props.C01Batch.refines
+
+/-- components the specification does not list are absent -/
+theorem batch_refines_absent : type_of% @Ark.Props.C01Batch.refines_absent := @Ark.Props.C01Batch.refines_absent
+
+/-- a handle is alive iff specified -/
+theorem batch_alive_iff_specified : type_of% @Ark.Props.C01Batch.alive_iff_specified := @Ark.Props.C01Batch.alive_iff_specified
+
+/-- a batch step whose precondition fails panics with the world and the machine state unchanged -/
+theorem batch_rejected : type_of% @Ark.Props.C01Batch.rejected := @Ark.Props.C01Batch.rejected
+
+/-- every other batch step succeeds -/
+theorem batch_accepted : type_of% @Ark.Props.C01Batch.accepted := @Ark.Props.C01Batch.accepted
+
+/-- the entities a batch selects are exactly the specified entities whose key set matches the filter -/
+theorem batch_selection_agrees : type_of% @Ark.Props.C01Batch.selection_agrees := @Ark.Props.C01Batch.selection_agrees
+
+/-- RemoveEntities: the specification keeps exactly the non-matching entries; every matching entity is dead -/
+theorem batch_delb_effect : type_of% @Ark.Props.C01Batch.delb_effect := @Ark.Props.C01Batch.delb_effect
+
+/-- the delb step and the run of single removals reach the same specification, handles, pool and observable world -/
+theorem batch_delb_is_singles : type_of% @Ark.Props.C01Batch.delb_is_singles := @Ark.Props.C01Batch.delb_is_singles
+
+/-- NewBatch(n > 0): equal, as machine states, to n single creations; n fresh distinct handles -/
+theorem batch_newb_effect : type_of% @Ark.Props.C01Batch.newb_effect := @Ark.Props.C01Batch.newb_effect
+
+/-- a batch creation creates at most one table -/
+theorem batch_newb_one_table : type_of% @Ark.Props.C01Batch.newb_one_table := @Ark.Props.C01Batch.newb_one_table
+
+/-- batch add/remove/exchange: the specification is mapped on the matching entries; removed components are gone, added ones read the last written value or zero, kept ones keep theirs -/
+theorem batch_xchgb_effect : type_of% @Ark.Props.C01Batch.xchgb_effect := @Ark.Props.C01Batch.xchgb_effect
+
+/-- the xchgb step and the run of single exchanges agree on specification, handles, pool and observable world -/
+theorem batch_xchgb_is_singles : type_of% @Ark.Props.C01Batch.xchgb_is_singles := @Ark.Props.C01Batch.xchgb_is_singles
+
+/-- **an entity the filter does not match keeps components and values**; NewBatch changes no existing entity -/
+theorem batch_frame_world_batch : type_of% @Ark.Props.C01Batch.frame_world_batch := @Ark.Props.C01Batch.frame_world_batch
+
+/-- the size budget: below 2^32 − 2 in total cost (a single operation 1, newb n costs max n 1, delb 0) every history without exchange batches fits -/
+theorem batch_fits_without_xchgb : type_of% @Ark.Props.C01Batch.fits_without_xchgb := @Ark.Props.C01Batch.fits_without_xchgb
+
+/-- … and with exchange batches (each may double the number of tables) -/
+theorem batch_fits_with_xchgb : type_of% @Ark.Props.C01Batch.fits_with_xchgb := @Ark.Props.C01Batch.fits_with_xchgb
 
 
 end Ark.Props.C01
